@@ -598,6 +598,16 @@ def builtin_call(engine, st, name, node):
             p = z3.Int("rl!p")
             arr = z3.Lambda([p], it.elem(p).term)
             return engine.alloc(st, V(Ty.List(Int), [it.length, arr]))
+        if isinstance(a, ast.Call) and isinstance(a.func, ast.Attribute) and a.func.attr in ("items", "values", "keys") and not a.args:
+            # tuple(d.items()) of an insertion-ordered dict: the list of its entries, in order
+            from .loops import describe_iter, PosIter
+
+            it, _ = describe_iter(engine, st, a)
+            if isinstance(it, PosIter):
+                p = z3.Int("it!p")
+                el = engine.unbox_value(st, it.elem(p))
+                return engine.alloc(st, V(Ty.List(el.t), [it.length] + [z3.Lambda([p], c) for c in el.c]))
+            raise Unsupported(f"{name}() of an unordered view")
         v = engine.deref(st, engine.eval(st, a))
         if isinstance(v, V) and isinstance(v.t, Ty.List):
             return engine.alloc(st, v)
